@@ -1,20 +1,32 @@
 #!/usr/bin/env python3
-"""MANIFEST.setup_cmd: offline build of the Lean library (all proofs) and all model drivers."""
-import os, sys, subprocess
+"""MANIFEST.setup_cmd: offline build of the Lean library (all proofs) and all model drivers.
+Regenerates every Gen file from /repo first, then builds the Lean targets of every property
+module found in tools/props/ (a property whose build fails is reported; the setup fails only
+if a property claimed in MANIFEST.json cannot be built)."""
+import importlib, json, os, sys
 sys.path.insert(0, os.path.dirname(os.path.abspath(__file__)))
-import vlib, extract
+import vlib
 
 def main():
     os.makedirs(vlib.BUILD, exist_ok=True)
-    for name in dir(extract):
-        if name.startswith("gen_"):
-            try:
-                getattr(extract, name)()
-            except Exception as ex:
-                print("setup: extractor %s failed: %r (kept committed Gen file)" % (name, ex))
-    ok, out = vlib.lake_build([])
-    print(out[-3000:])
-    sys.exit(0 if ok else 1)
+    claimed = {c["property_id"] for c in json.load(open(os.path.join(vlib.VERIF, "MANIFEST.json")))["checks"]}
+    bad = []
+    for f in sorted(os.listdir(os.path.join(vlib.VERIF, "tools", "props"))):
+        if not f.endswith(".py") or f.startswith("_"):
+            continue
+        pid = f[:-3]
+        try:
+            spec = importlib.import_module("props." + pid).Spec()
+            spec.gen(vlib.Ctx(pid, "quick", 1))
+            ok, out = vlib.lake_build(spec.lean_targets)
+        except Exception as ex:
+            ok, out = False, repr(ex)
+        print("setup: %s %s" % (pid, "ok" if ok else "FAILED"))
+        if not ok:
+            print(out[-2000:])
+            if pid in claimed:
+                bad.append(pid)
+    sys.exit(1 if bad else 0)
 
 if __name__ == "__main__":
     main()
